@@ -28,7 +28,7 @@ func (r *rng) intn(n int) int {
 	}
 	return int(r.next() % uint64(n))
 }
-func (r *rng) bool() bool     { return r.next()&1 == 1 }
+func (r *rng) bool() bool        { return r.next()&1 == 1 }
 func (r *rng) chance(p int) bool { return r.intn(100) < p }
 func (r *rng) bytes(n int) []byte {
 	b := make([]byte, n)
